@@ -314,6 +314,7 @@ type vfWorld struct {
 	noSnap   bool
 	stopped  bool
 	nWire    int
+	firstPid map[[2]int]int
 	label    string
 }
 
